@@ -33,6 +33,9 @@ CHECKS = {
     "C13": dict(level="other", technique="deductive contracts (pyvc) on _get_line_start_charnos, _get_charno, Match.*, _get_position, get_charnos, finditer/findall/search/match/fullmatch given a stated parser-position contract; bounded span oracle (ast.get_source_segment) for that assumption",
                 text="Offsets, spans, line/column and API coherence are proved for all sources, nodes and match sequences, given the stated contract of CPython's node positions; that contract itself (byte columns, line separators) is confronted with the real parser only on the corpus and generated variants (bounded).",
                 note="trusted: z3, pyvc executor, assumed contracts of io.StringIO.readlines/str.splitlines, re.findall for two literal patterns, utf-8 codec bounds; induction schema for the ls-monotone lemma", ref="5/C13"),
+    "C14": dict(level="other", technique="deductive contracts (pyvc) on subn's count normalisation and rewrite generator (yield contracts), the range hull of find_replace, the string-continuation-line loop of _do_rewrite (dict store model), the no-rewrite identity chain fix.wrapper/_apply_rewrites/_substitute_original_strings, the ignore guards of _do_rewrite; bounded AST-level verifying oracle over generated substitutions",
+                text="Count bound, prefix property of the applied items, the replaced range, the exemption of string content lines from re-indentation, byte-identity when nothing is yielded and the ignore guards are proved for all inputs; that the result tree is the source tree with the applied matches replaced (instantiation, parenthesisation, splice) is bounded (generated frames x expressions x replacements x counts, corpus self-substitution).",
+                note="trusted: z3, pyvc executor; _substitute_original_fstrings identity assumed; textual splice bounded only", ref="5/C14"),
     "C20": dict(level="other", technique="deductive guard obligations (pyvc) on the skip_file return, has_ignore_comment, _do_rewrite (lenient, both target kinds), scheduler step, alter_code veto, remove_nodes filter; bounded line-annotation drive of format_code",
                 text="Every text-editing path under contract is proved to consult the ignore detector before changing text, and the detector is proved equal to its line-scan spec; that no other path edits text is bounded (corpus lines annotated one at a time through the whole pipeline; skip_file through library, file and stdin entry points).",
                 note="trusted: z3, pyvc executor; regexes uninterpreted; rules that splice text outside the contracted paths are bounded only", ref="5/C20"),
